@@ -1057,6 +1057,34 @@ Section Composed.
     destruct (run_fold [a] false f g pan (pipe_of gen_default_fold nd) (length a) init) as [[[o m] t] c].
     unfold fold_ in H. destruct (fold_loop g pan 0 init a) as [o' calls]. now injection H as _ -> _.
   Qed.
+  (* ---- GenericArrayIter's own fold / rfold / clone (src/iter.rs), panic-free: every remaining element is
+          visited exactly once, front to back (fold) / back to front (rfold); the clone holds the images of
+          exactly the remaining elements, in order, and the original is untouched ---- *)
+  Theorem src_iter_fold_in_order a so nd init :
+    let '(o, m, t, c) := run_fold [a] so f g None (pipe_of gen_iter_fold nd) (length a) init in
+    o = FoldOk (fold_acc g 0 init a) /\ List.concat c = a /\ (m ++ t)%list = map EMove a.
+  Proof.
+    pose proof (tie_iter_fold f g None a so nd init) as H.
+    destruct (run_fold [a] so f g None (pipe_of gen_iter_fold nd) (length a) init) as [[[o m] t] c].
+    rewrite fold_ok in H. injection H as -> -> ->. repeat split; reflexivity.
+  Qed.
+
+  Theorem src_iter_rfold_in_order a so nd init :
+    let '(o, m, t, c) := run_fold [a] so f g None (pipe_of gen_iter_rfold nd) (length a) init in
+    o = FoldOk (fold_acc g 0 init (rev a)) /\ List.concat c = rev a.
+  Proof.
+    pose proof (tie_iter_rfold f g None a so nd init) as H.
+    destruct (run_fold [a] so f g None (pipe_of gen_iter_rfold nd) (length a) init) as [[[o m] t] c].
+    destruct H as (t' & H & _). rewrite fold_ok in H. injection H as <- _ <-. split; reflexivity.
+  Qed.
+
+  Theorem src_iter_clone_all nd a :
+    run_for_each [a] false f g None (pipe_of gen_iter_clone nd) (length a) =
+    (Ok (clones_of (fun j x => f j [x]) 0 a), [], [], [], map (fun x => [x]) a).
+  Proof.
+    pose proof (tie_iter_clone f g None nd a) as H.
+    rewrite clone_loop_ok in H by (intros j Hj; reflexivity). exact H.
+  Qed.
 End Composed.
 
 (* how generate obtains its destination and hands it back: on the stack an uninitialised array and
